@@ -239,6 +239,25 @@ def check(chk):
     rc_ = [n.id for n, c in bcfg.calls_named("trigger_recount")]
     w_ = bcfg.path_avoiding(bcfg.entry.id, [bcfg.exit.id], rc_ + [b.id for b in bcfg.nodes if b.kind == "branch" and src(b.ast) == "future.cancelled()" and b.value is True], ignore_exc=True) if rc_ else [0]
     chk.ob("DELTA-1", "every ball-left timer that was not cancelled asks for a recount", w_ is None, bl.where(), construct=bl.ident, text="ball left recount")
+    # the switches that are counted are the switches that are watched: every loop of the switch counter that counts or registers handlers walks
+    # the same collection (`self._switches`: the ball switches plus a separate jam switch); a ball that comes to rest on a switch that is
+    # counted but not watched is never noticed
+    scc = repo.cls(SCF, "SwitchCounter")
+    init_ = scc.methods["__init__"]
+    chk.analysed(init_)
+    reg_loops = [x for x in walk_local(init_.node) if isinstance(x, ast.For) and any(isinstance(c, ast.Call) and call_attr(c) == "add_switch_handler_obj" for c in ast.walk(x))]
+    cnt_loops = [(m_, x) for m_ in scc.methods.values() if m_ is not init_ for x in walk_local(m_.node) if isinstance(x, ast.For) and "switch" in src(x.target) and
+                 src(x.iter).startswith("self.")]
+    chk.need(reg_loops and cnt_loops, "WINDOW-4", "the switch counter registers handlers per switch and counts per switch", init_)
+    watched = {src(x.iter) for x in reg_loops}
+    counted = {src(x.iter) for _, x in cnt_loops}
+    chk.ob("WINDOW-4", "the switch counter watches exactly the switches it counts (one collection for handlers and for counting)", watched == counted == {"self._switches"},
+           init_.where(reg_loops[0]), detail="handlers for %s, counting over %s" % (sorted(watched), sorted(counted)), construct=init_.ident, text="watched vs counted switches")
+    cbs_ = sorted({(const_value(kwarg(c, "state")), src(kwarg(c, "callback"))) for x in reg_loops for c in ast.walk(x) if isinstance(c, ast.Call) and
+                   call_attr(c) == "add_switch_handler_obj" and kwarg(c, "callback") is not None and kwarg(c, "state") is not None})
+    chk.ob("WINDOW-4", "each watched switch invalidates the count at once and asks for a recount after the debounce, on both edges",
+           cbs_ == [(0, "self.invalidate_count"), (0, "self.trigger_recount"), (1, "self.invalidate_count"), (1, "self.trigger_recount")], init_.where(reg_loops[0]),
+           detail=str(cbs_), construct=init_.ident, text="switch counter handler set")
     # hold-coil devices: a release in progress suspends holding (hold() returns early while the flag is set); the release's completion
     # always ends that state - also when the device ran empty - or the coil is never energised again and the next ball that is counted in
     # rolls straight out (count 1, device physically empty)
@@ -669,6 +688,7 @@ def _entrance_windows_per_switch(chk, repo):
 def battery():
     from sa.battery import M
     return [
+        M("separate jam switch counted but not watched", "mpf/devices/ball_device/switch_counter.py", "        for switch in self._switches:\n            self.machine.switch_controller.add_switch_handler_obj(", "        for switch in self.config['ball_switches']:\n            self.machine.switch_controller.add_switch_handler_obj(", "WINDOW-4"),
         M("ball-left timer lowers an unreliable count too", "mpf/devices/ball_device/switch_counter.py", "        if not self._is_unreliable:\n            # only do this is count it reliable\n            self._last_count -= 1\n            self.record_activity(BallLostActivity())", "        self._last_count -= 1\n        self.record_activity(BallLostActivity())", "DELTA-1"),
         M("entrance during an eject not counted when the device looks full", "mpf/devices/ball_device/ball_count_handler.py", "        await self.ball_device.incoming_balls_handler.ball_arrived()\n        self._set_ball_count(self._ball_count + 1)", "        await self.ball_device.incoming_balls_handler.ball_arrived()\n        if not self.is_full:\n            self._set_ball_count(self._ball_count + 1)", "DELTA-1"),
         M("release state kept when the hold device ran empty", "mpf/devices/ball_device/hold_coil_ejector.py", "        self.hold_release_in_progress = False\n        self.ball_device.log.debug(\"No more balls. Hold coil will stay disabled.\")\n\n        # reenable hold coil if there are balls left\n        if self.ball_device.balls > 0:\n            self._enable_hold_coil()", "        if self.ball_device.balls > 0:\n            self.hold_release_in_progress = False\n            self._enable_hold_coil()", "HOLD-4"),
